@@ -1,7 +1,9 @@
 ------------------------------ MODULE Headers ------------------------------
 (***************************************************************************)
 (* Generator for the decoding half of C15: every abstract two-line file    *)
-(* header.  A line is [kind, enc]; TLC enumerates all combinations (the    *)
+(* header, followed by an optional THIRD line that mentions an encoding    *)
+(* and must be ignored whatever the line-break style (PEP 263 looks at two *)
+(* lines).  A line is [kind, enc]; TLC enumerates all combinations (the    *)
 (* states are dumped and rendered to several byte strings each by          *)
 (* checks/C15.py); Lines.HeaderEncoding is the PEP 263 decision for them.  *)
 (***************************************************************************)
@@ -10,10 +12,13 @@ Kinds == {"none", "blank", "comment", "cookie", "code", "codecookie", "strcookie
 Encs == {"utf-8", "latin-1", "ascii", "iso-8859-15", "utf8", "no-such-codec"}
 LineClasses == {[kind |-> k, enc |-> ""] : k \in {"none", "blank", "comment", "code"}}
                \cup {[kind |-> k, enc |-> e] : k \in {"cookie", "codecookie", "strcookie"}, e \in Encs}
-VARIABLES l1, l2, bom, body
-Init == /\ l1 \in LineClasses /\ l2 \in LineClasses /\ bom \in BOOLEAN
+Third == {[kind |-> "none", enc |-> ""], [kind |-> "cookie", enc |-> "latin-1"],
+          [kind |-> "codecookie", enc |-> "no-such-codec"], [kind |-> "strcookie", enc |-> "latin-1"]}
+VARIABLES l1, l2, l3, bom, body
+Init == /\ l1 \in LineClasses /\ l2 \in LineClasses /\ l3 \in Third /\ bom \in BOOLEAN
         /\ body \in {"ascii", "utf8", "latin1"}
         /\ (l1.kind = "none" => l2.kind = "none")
-Next == UNCHANGED <<l1, l2, bom, body>>
-Spec == Init /\ [][Next]_<<l1, l2, bom, body>>
+        /\ (l2.kind = "none" => l3.kind = "none")
+Next == UNCHANGED <<l1, l2, l3, bom, body>>
+Spec == Init /\ [][Next]_<<l1, l2, l3, bom, body>>
 =============================================================================
